@@ -3,7 +3,7 @@ import io, os, sys
 sys.path.insert(0, os.path.dirname(__file__))
 from _common import main
 
-BOUND = 'files with all-0x40 blocks at every position of 3 (whole and cut short); blocked inputs of 1..4 blocks (and cut short at arbitrary bytes) x delivered-so-far residues {0,1,4,1011,1012,1013} reached by 2 read chunkings x next read size 1..2030 (quick: edges +-3 and step 61; thorough: all) and read(); unblock_1014: every truncation length of 1..3-block files (quick: step 7 + edges) and every single-byte corruption of each trailer byte'
+BOUND = 'files of 17, 33 and 70 blocks; files with all-0x40 blocks at every position of 3 (whole and cut short); blocked inputs of 1..4 blocks (and cut short at arbitrary bytes) x delivered-so-far residues {0,1,4,1011,1012,1013} reached by 2 read chunkings x next read size 1..2030 (quick: edges +-3 and step 61; thorough: all) and read(); unblock_1014: every truncation length of 1..3-block files (quick: step 7 + edges) and every single-byte corruption of each trailer byte'
 
 
 def blocked(nblocks, seed=0, pad_blocks=()):
@@ -59,7 +59,7 @@ def oracle(inp):
             content = bytes.fromhex(inp['data'])
         else:
             L, q = inp['filelen'], inp['badblock']
-            if not 0 <= L <= 5000:
+            if not 0 <= L <= 80000:
                 return None
             content = bytearray(blocked(L // 1014 + 1)[:L])
             if 0 <= q < L // 1014:
@@ -102,6 +102,13 @@ def cases(tier, rng):
         for cut in (1013, 1014, 1500, 2027, 2028, 2029, 2500, 3041):
             yield {'kind': 'read', 'nblocks': 3, 'pad_blocks': pads, 'cut': cut, 'sizes': [7, None]}
             yield {'kind': 'read', 'nblocks': 3, 'pad_blocks': pads, 'cut': cut, 'sizes': [None]}
+    for nb in (17, 33, 70):
+        for szs in ([None], [5000] * (nb // 4) + [None], [16384, 1, None], [1012 * nb - 1, 5, 5], [100000]):
+            yield {'kind': 'read', 'nblocks': nb, 'sizes': szs}
+        yield {'kind': 'inverse', 'n': 1012 * nb - 7}
+        yield {'kind': 'unblock_fn', 'filelen': 1014 * nb, 'badblock': -1}
+        yield {'kind': 'unblock_fn', 'filelen': 1014 * nb, 'badblock': nb - 1}
+        yield {'kind': 'unblock_fn', 'filelen': 1014 * nb, 'badblock': 16}
     for cut in (1, 500, 1012, 1013, 1014, 1015, 2027, 2028, 2029):
         for k in (1, 4, 1011, 1012, 1013, 2000):
             yield {'kind': 'read', 'nblocks': 3, 'cut': cut, 'sizes': [k, k, None]}
